@@ -160,7 +160,7 @@ func (s *c02Server) takeCalled() []string {
 var (
 	c02Jsonrpc = []string{"", `"2.0"`, `"1.0"`, `2.0`, `null`, `"2.0"`, `"2.0 "`, `["2.0"]`}
 	c02ID      = []string{"", `1`, `"s"`, `null`, `true`, `[1]`, `{}`, `1.5`, `-0`, `1e3`, `"1"`, `false`, `""`, `0`, `"null"`, `-7`}
-	c02Method  = []string{"", `"ok"`, `"nope"`, `"rpc.serverInfo"`, `"rpc.x"`, `""`, `null`, `5`, `"echo"`, `"ok"`, `["ok"]`, `"OK"`, `"rpc"`}
+	c02Method  = []string{"", `"ok"`, `"nope"`, `"rpc.serverInfo"`, `"rpc.x"`, `""`, `null`, `5`, `"echo"`, `"ok"`, `["ok"]`, `"OK"`, `"rpc"`, `"no\u0007pe"`, `"\u001b[0m"`, `"a\u0000b"`, `"\ud83d\ude00x"`, `"q\"uo\\te<&>"`, `"é\u2028"`, `"\u007f\u0080"`}
 	c02Params  = []string{"", `[]`, `{}`, `null`, `5`, `"x"`, `[1,{"a":[2]}]`, `{"k":null}`, `true`, ` [ 1 ] `}
 	c02Result  = []string{"", `1`, `null`, `{"a":1}`}
 	c02Error   = []string{"", `{"code":1,"message":"m"}`, `5`, `null`, `{"code":"x"}`, `{}`, `"e"`, `{"code":1.5}`, `{"CODE":2,"Message":"m","data":[1]}`, `{"code":3000000000}`, `[]`, `{"message":7}`}
@@ -195,7 +195,7 @@ func (v c02Variant) key() string { return fmt.Sprint([7]int(v)) }
 
 func c02RandomVariant(rng *rand.Rand, valid bool) c02Variant {
 	if valid { // mostly valid request
-		v := c02Variant{1, []int{0, 1, 2, 13, 15}[rng.Intn(5)], []int{1, 1, 2, 8, 3}[rng.Intn(5)], []int{0, 1, 2, 3, 6}[rng.Intn(5)], 0, 0, 0}
+		v := c02Variant{1, []int{0, 1, 2, 13, 15}[rng.Intn(5)], []int{1, 1, 2, 8, 3, 13, 14, 15, 16, 17, 18, 19}[rng.Intn(12)], []int{0, 1, 2, 3, 6}[rng.Intn(5)], 0, 0, 0}
 		if rng.Intn(3) == 0 { // one defect
 			f := rng.Intn(7)
 			v[f] = rng.Intn([]int{len(c02Jsonrpc), len(c02ID), len(c02Method), len(c02Params), len(c02Result), len(c02Error), len(c02Extra)}[f])
